@@ -343,7 +343,7 @@ def pipeline(pid, tier, replay, spec_dir, mc_runs, gens, drivers, replay_driver,
             th.start()
             threads.append(th)
     binary = binary or build_harness(wd)
-    rows, nsched = [], 0
+    rows, nsched, outcomes = [], 0, []
     if replay:
         test, key, tf = replay_driver
         run_harness(binary, test, {"VERIF_OUT": wd, key: os.path.abspath(replay)})
@@ -359,12 +359,31 @@ def pipeline(pid, tier, replay, spec_dir, mc_runs, gens, drivers, replay_driver,
             if k == 0:
                 raise Machinery("TLC generated no schedules (%s):\n%s" % (module, g.out[-2000:]))
             nsched += k
-        for (test, env, files) in drivers:
+        for drv in drivers:
+            (test, env, files), opt = drv[:3], (drv[3] if len(drv) > 3 else {})
             e = {"VERIF_OUT": wd}
             e.update({k: (os.path.join(wd, v[1:]) if isinstance(v, str) and v.startswith("@") else v) for k, v in env.items()})
-            run_harness(binary, test, e, timeout=3000)
+            if opt.get("race"):
+                # the driver runs under the Go race detector: a race report or a runtime crash of the code under test is an
+                # observation about the code (outcome RACE / CRASH), not a machinery failure
+                rb = build_harness(wd, race=True)
+                e["GORACE"] = "halt_on_error=1 exitcode=66"
+                p = run_harness(rb, test, e, timeout=3000, allow_fail=True)
+                if p.returncode != 0:
+                    what = "RACE" if "WARNING: DATA RACE" in p.stdout else ("CRASH" if ("fatal error:" in p.stdout or "panic:" in p.stdout) and "/repo/" in p.stdout else
+                                                                            ("DEADLOCK" if "DEADLOCK" in p.stdout else None))
+                    if what is None:
+                        raise Machinery("harness driver %s died (rc=%d):\n%s" % (test, p.returncode, p.stdout[-6000:]))
+                    os.makedirs(os.path.join(VERIF, "out", pid), exist_ok=True)
+                    path = os.path.join(VERIF, "out", pid, "%s-%s-%d.txt" % (test, what.lower(), os.getpid()))
+                    with open(path, "w") as f:
+                        f.write(p.stdout[-20000:])
+                    outcomes.append((what, path, p.stdout))
+            else:
+                run_harness(binary, test, e, timeout=3000)
             for tf in files:
-                rows += read_ndjson(os.path.join(wd, tf))
+                if os.path.exists(os.path.join(wd, tf)):
+                    rows += read_ndjson(os.path.join(wd, tf))
     if not rows:
         raise Machinery("no trace recorded")
     execs = split_executions(rows, reset_key)
@@ -401,6 +420,11 @@ def pipeline(pid, tier, replay, spec_dir, mc_runs, gens, drivers, replay_driver,
     for f in known.values():
         print("KNOWN-FINDING: property=%s %s" % (pid, f["what"]))
     rc = 0
+    for (what, path, out) in outcomes:
+        print("VIOLATION property=%s replay=%s" % (pid, path))
+        m = re.search(r"(WARNING: DATA RACE.*?)(?:\n\n|==================)", out, re.S) if what == "RACE" else re.search(r"((?:fatal error|panic):.*?\n(?:.*\n){0,14})", out)
+        log("  outcome %s while running the code under test%s" % (what, (":\n    " + m.group(1)[:1500].replace("\n", "\n    ")) if m else ""))
+        rc = 1
     for v in rest:
         path = save_violation(pid, v["segment"], {"rule": v["rule"], "event": strip([v["segment"][-1]])[0], "model_state": v["state"]})
         print("VIOLATION property=%s replay=%s" % (pid, path))
@@ -416,7 +440,7 @@ def pipeline(pid, tier, replay, spec_dir, mc_runs, gens, drivers, replay_driver,
            "exhaustive": False}
     if extra_cov:
         cov.update(extra_cov)
-    write_evidence(pid, tier, "model_checking", cov, time.time() - t0, violations=len(rest), assumptions=list(assumptions))
+    write_evidence(pid, tier, "model_checking", cov, time.time() - t0, violations=len(rest) + len(outcomes), assumptions=list(assumptions))
     if rc == 0:
         shutil.rmtree(wd, ignore_errors=True)
     return rc
